@@ -1504,8 +1504,11 @@ func isRegexpAll(r *syntax.Regexp) bool {
 }
 
 func queryMetaChecksum(field string, value *regexp.Regexp) string {
+	// A ':' inside the field is escaped, which keeps different (field, value)
+	// pairs apart: "team:" + "core" and "team" + ":core" must not share a
+	// key. Fields without ':' or '\' hash as they always did.
 	h := xxhash.New()
-	h.Write([]byte(field))
+	h.Write([]byte(strings.NewReplacer(`\`, `\\`, `:`, `\:`).Replace(field)))
 	h.Write([]byte{':'})
 	h.Write([]byte(value.String()))
 	return fmt.Sprintf("%x", h.Sum64())
